@@ -117,8 +117,16 @@ def main():
             "add_only": True,
         },
         "engines": [
-            {"name": "X", "path": "vlib/xrun.py, vlib/contracts.py, annotator/", "serves_properties": sorted(k for k, v in CHECKS.items() if v[0] == "proof"),
-             "kind_free_text": "Kani function contracts (requires/ensures/modifies, proof_for_contract, stub_verified) attached in place to the dumped real macro expansion"},
+            {"name": "X", "path": "vlib/xrun.py, vlib/driver.py, vlib/contracts.py, annotator/", "serves_properties": sorted(k for k, v in CHECKS.items() if v[0] == "proof") + ["C09", "C10", "C17"],
+             "kind_free_text": "Kani function contracts (requires/ensures/modifies, proof_for_contract, stub_verified) attached in place to the dumped real macro expansion; counterexamples via cbmc --trace, replayed against the real macro"},
+            {"name": "PT", "path": "vlib/pt.py", "serves_properties": ["C01", "C02", "C03", "C04", "C05", "C16"],
+             "kind_free_text": "layout-parametric Kani obligations on the quote! templates re-extracted from codegen.rs (all lo/width/stride/count/index per storage width, symbolic bit position)"},
+            {"name": "GEN", "path": "vlib/gen.py", "serves_properties": ["C06", "C09", "C10", "C11", "C14"],
+             "kind_free_text": "generator helpers (BaseDataSize::new, is_int_size_regular_type, Exhaustive::matches, try_parse_arbitrary_int_type, ranges_have_self_overlap) under contract / bounded harness in an annotated per-run copy of bitbybit/src"},
+            {"name": "META", "path": "vlib/meta.py, meta/, spec/spec.rs", "serves_properties": ["C01", "C02", "C03", "C04", "C05", "C08", "C11", "C12", "C13", "C17"],
+             "kind_free_text": "Verus: adequacy of spec.rs (the real file, clauses in //@ comments) against the per-bit model; history / frame / invariant / builder-chain lemmas over the contracts"},
+            {"name": "ACC/INV/CONST/DBG", "path": "vlib/acc.py, vlib/inv.py, vlib/constck.py, vlib/dbgck.py, vlib/standins.py", "serves_properties": ["C09", "C10", "C14", "C15", "C17", "C19"],
+             "kind_free_text": "bounded stand-ins decided by the real rustc + real macro on enumerated programs (accept/reject, API inventory, const evaluation, native Debug enumeration); labelled bounded in every evidence file"},
         ],
         "checks": checks,
         "not_applicable": na,
